@@ -214,7 +214,7 @@ class KH:
 
 
 def run_kani_group(prop_id, tier, target, modules, harnesses, support=(), elide_tracing=(),
-                   prepare=None, jobs=8, harness_timeout=None, notes=None, modpath=None):
+                   prepare=None, jobs=8, harness_timeout=None, notes=None, modpath=None, mem_gb=14):
     """modules: {src rel path: harness file name under /verif/harness}.  Returns [Obl]."""
     hs = [h for h in harnesses if tier == "thorough" or h.tier == "quick"]
     if os.environ.get("VERIF_DEV_ENGINES", "KM").find("K") < 0:  # development aid only
@@ -273,7 +273,7 @@ def run_kani_group(prop_id, tier, target, modules, harnesses, support=(), elide_
                 filt.append(mp + "verif_proofs::" + n)
         per_h = max([harness_timeout] + [h.timeout or 0 for h in hs])
         log_path = os.path.join(LOG_DIR, "%s-kani-%s.log" % (prop_id, tier))
-        results, wall, cerr, out = kk.run_kani(o, filt, target=target, harness_timeout=per_h, jobs=jobs, log_path=log_path)
+        results, wall, cerr, out = kk.run_kani(o, filt, target=target, harness_timeout=per_h, jobs=jobs, log_path=log_path, mem_gb=mem_gb)
         if notes is not None:
             notes.append("kani %s: %d harness runs in %.0fs wall; overlay edits: %s" % (target, len(names), wall, "; ".join(d for _, d in o.edits if "append" not in d) or "none besides appended modules"))
         parsed = kk._parse(out, names)
